@@ -16,7 +16,7 @@ ALL_INVARIANTS = [
     "Inv_C08_Partition", "Inv_C08_ChildRoot", "Inv_C08_Refs", "Inv_C08_WhoWrites",
     "Inv_C12_Excluded", "Inv_C12_Accumulate", "Inv_NoInternal",
     "Inv_C09_Identical", "Inv_C09_Detects", "Inv_C17_Renamed", "Inv_C17_Altered",
-    "Inv_C18_Summary", "Inv_C18_VerifyPL", "Inv_C19_Info", "Inv_C19_InfoSF", "Inv_C14_Frame",
+    "Inv_C18_Summary", "Inv_C18_VerifyPL", "Inv_C19_Info", "Inv_C19_InfoSF", "Inv_C14_Frame", "Inv_C14_Scope",
 ]
 
 
@@ -40,7 +40,7 @@ SCOPES = {
         contents=["c1", "c2", "c3", "EMPTY"], roots=[P(), P("d"), P("d", "e"), P("d2")],
         fmtchoices=[["md5"], ["c4", "xxh64"], ["c4", "md5", "xxh64"], ["xxh64"]], pats=[(), ("n:x",), ("g:tmp",)],
         sf=[frozenset({P("d", "e", "c")}), frozenset({P("d")}), frozenset({P("a"), P("d2", "f")})],
-        ops=["alter", "delete", "mkdir", "create", "createsf", "verify", "diff", "verifysf", "verifydh", "verifydhco", "flatten", "verifypl", "info", "infosf", "hash", "xsdcheck", "nodh"],
+        ops=["alter", "delete", "mkdir", "create", "createsf", "verify", "diff", "verifysf", "verifydh", "verifydhco", "verifydhopt", "flatten", "verifypl", "info", "infosf", "hash", "xsdcheck", "nodh"],
         maxgens=40, maxops=14, keepsnap=True, patnames={"n:x": ["x"], "g:tmp": ["k_t"]},
         mutable=[P("a"), P("x"), P("d", "b"), P("d", "e", "c"), P("d2", "f"), P("g")],
     ),
@@ -83,9 +83,9 @@ SCOPES = {
     ),
     # flatten and verify -pl over flat histories with changing formats, failed entries, partial -sf generations
     "flat": dict(
-        fmts=["md5", "sha1"], files=[P("a"), P("d", "b")], dirs=[P("d")],
+        fmts=["md5", "sha1", "xxh64"], files=[P("a"), P("d", "b")], dirs=[P("d")],
         init={P("a"): "c1", P("d"): "DIR", P("d", "b"): "c2"}, contents=["c1", "c2"],
-        roots=[P()], fmtchoices=[["md5"], ["sha1"], ["md5", "sha1"]], pats=[()], sf=[frozenset({P("d", "b")}), frozenset({P("a")})],
+        roots=[P()], fmtchoices=[["md5"], ["sha1"], ["xxh64"], ["md5", "sha1"]], pats=[()], sf=[frozenset({P("d", "b")}), frozenset({P("a")})],
         ops=["alter", "delete", "create", "createsf", "flatten", "verifypl"],
         maxgens=3, maxops=7, keepsnap=False,
     ),
@@ -153,6 +153,14 @@ SCOPES = {
         ops=["alter", "delete", "create", "verify", "diff", "verifydh"], maxgens=2, maxops=6, keepsnap=True,
         mutable=[P("x"), P("d", "x"), P("a")], patnames={"n:x": ["x"]},
     ),
+    # ignore patterns and nested histories and -sf: generations that only reference a child generation keep the patterns
+    "ignsf": dict(
+        fmts=["md5"], files=[P("a"), P("x"), P("d", "x"), P("d", "b")], dirs=[P("d")],
+        init={P("a"): "c1", P("x"): "c1", P("d"): "DIR", P("d", "b"): "c1", P("d", "x"): "c1"}, contents=["c1", "c2"],
+        roots=[P(), P("d")], fmtchoices=[["md5"]], pats=[(), ("n:x",)], sf=[frozenset({P("d", "b")}), frozenset({P("a")}), frozenset({P("d")})],
+        ops=["alter", "create", "createsf", "verify", "diff"], maxgens=4, maxops=6, keepsnap=False,
+        mutable=[P("a"), P("d", "b")], patnames={"n:x": ["x"]},
+    ),
     # ignore patterns: a base-name pattern, a glob class, applied to files and a directory
     "ign": dict(
         fmts=["md5"], files=[P("a"), P("x"), P("k_t"), P("d", "x"), P("d", "b"), P("g", "c"), P("d", "dsstore")], dirs=[P("d"), P("g")],
@@ -185,6 +193,22 @@ SCOPES = {
         roots=[P()], fmtchoices=[["md5"]], pats=[()], sf=[],
         ops=["rename", "create", "verify", "dr", "dronly"], maxgens=3, maxops=6, keepsnap=False,
         mutable=[P("a"), P("a2"), P("d", "a3")],
+    ),
+    # one file renamed generation after generation (three and more steps), every step sealed with -dr
+    "chain3": dict(
+        fmts=["md5"], files=[P("a"), P("a2"), P("a3"), P("d", "a4")], dirs=[P("d")],
+        init={P("a"): "c1", P("d"): "DIR"}, contents=["c1"],
+        roots=[P()], fmtchoices=[["md5"]], pats=[()], sf=[],
+        ops=["rename", "create", "verify", "dr", "dronly"], maxgens=5, maxops=7, keepsnap=False,
+        mutable=[P("a"), P("a2"), P("a3"), P("d", "a4")],
+        init_creates=[P()],
+    ),
+    # directory-hash verification with its option variants: -h FORMAT, -co, -ro
+    "dhopt": dict(
+        fmts=["c4", "md5", "xxh64"], files=[P("a"), P("d", "b"), P("d", "e", "c")], dirs=[P("d"), P("d", "e"), P("g")],
+        init={P("a"): "c1", P("d"): "DIR", P("d", "b"): "c2", P("d", "e"): "DIR"}, contents=["c1", "c2"],
+        roots=[P(), P("d")], fmtchoices=[["md5"], ["xxh64"], ["md5", "xxh64"], ["c4"]], pats=[()], sf=[],
+        ops=["alter", "delete", "mkdir", "create", "verifydh", "verifydhco", "verifydhopt", "nodh"], maxgens=3, maxops=6, keepsnap=True,
     ),
     # directory-hash verification
     "dh": dict(
